@@ -10,7 +10,7 @@ TB = ("Trusted: Coq 8.16.1 kernel (full .vo build, vm_compute in finite obligati
       "verif-tagged read-only hooks; encoding/json and Go's map/slices as oracles. The theorem is about the "
       "hand-written Gallina machine (coq/theories/Model/Machine.v); it is tied to /repo by the correspondence "
       "check, which compares the projected observations after every operation of every generated history. "
-      "A second tie is regenerated from the Go source on every run (srcgen: go/ast translator + 508 equivalence theorems): the pointer code of the linked lists and of the red-black, AVL and B-trees (Put, Remove, lookups, iterators), the ArrayList capacity management, the binary heap, the ring buffer and the wrapper kinds are proved equal to the model's functions; String() text, Sort, Each, the bytes of JSON and slice aliasing are modelled or probed, not verified (DESIGN 0.6).")
+      "A second tie is regenerated from the Go source on every run (srcgen: go/ast translator + more than 500 equivalence theorems): the pointer code of the linked lists and of the red-black, AVL and B-trees (Put, Remove, lookups, iterators), the ArrayList capacity management, the binary heap, the ring buffer and the wrapper kinds are proved equal to the model's functions; String() text, Sort, Each, the bytes of JSON and slice aliasing are modelled or probed, not verified (DESIGN 0.6).")
 
 # property -> (claimed?, technique, level text, extra note, design ref)
 P = {
